@@ -1006,6 +1006,7 @@ BASE_MODELS = [
     (R(r"^(Option|Result)::<.*>::or_else::<.*>$"), m_or_else),
     (R(r"^(Option|Result)::<.*>::and_then::<.*>$"), m_and_then),
     (R(r"^Option::<.*>::filter::<.*>$"), m_opt_filter),
+    (R(r"^<Box<.*> as Drop>::drop$"), lambda ex, st, c, a, d: iter([(st, UNIT)])),
     (R(r"^<(i|u)(\d+|size) as TryFrom<(i|u)(\d+|size)>>::try_from$"), m_int_try_from),
     (R(r" as Fn(Mut|Once)?<.*>>::call(_mut|_once)?$"), m_fn_call),
     (R(r"^core::num::<impl i\d+>::abs$|^core::num::<impl isize>::abs$"), m_int_abs),
